@@ -1095,19 +1095,9 @@ inline void DnsMessage::validateRdataSecurity(const DnsResourceRecord &rr)
     }
   }
 
-  // Validate other record types that should never contain compression pointers in RDATA
-  if (rr.type == DnsType::TXT || rr.type == DnsType::AAAA)
-  {
-    for (std::size_t i = 0; i < rr.rdata.size() - 1; ++i)
-    {
-      if ((rr.rdata[i] & constants::DNS_COMPRESSION_MASK) == constants::DNS_COMPRESSION_MASK)
-      {
-        throw DnsParseException("Malicious compression pointer detected in " +
-                                std::to_string(static_cast<std::uint16_t>(rr.type)) +
-                                " record RDATA at offset " + std::to_string(i));
-      }
-    }
-  }
+  // TXT and AAAA RDATA hold no domain names (RFC 1035 3.3.14, RFC 3596 2.2), so it is never
+  // decompressed and every byte value is legal there (fe80::1, UTF-8 text, 255-byte strings);
+  // parseAAAARecord() and parseTxtRecord() validate the lengths
 
   // Additional validation for other record types that shouldn't have compression pointers
   // in specific parts of their RDATA could be added here in the future
